@@ -160,4 +160,10 @@ var plans = map[string]plan{
 		Rule:     "cases are (Go type built at run time from a generated descriptor with reflect: booleans, every sized integer and float, strings, []byte, time.Time, pointers at any level, slices, string-keyed maps, structs with json tags (renamed, omitempty, '-', untagged, name-less omitempty), embedded hand-declared structs incl. colliding names, and hand-declared recursive types (self through pointer / slice / map, mutual recursion, untagged self-reference); a value with integer extremes, non-nil slices and maps, nil and non-nil pointers, times in years 1-9999, finite floats; option set default / UseAllExportedFields / CreateComponentSchemas / both). The JSON produced by encoding/json for the value must validate (float64 and json.Number trees) against the schema generated for the type after the component map has been loaded as a document. non-trivial = (>= 2 levels of nesting, a pointer inside a container, an embedded struct or a recursive type) and (a numeric extreme or a nil pointer in the value). distinct = FNV-64a of the canonical case JSON.",
 		Assume:   []string{"the encoding under test is the one encoding/json produced when the case was generated (stored in the case)", "interfaces, arrays, json.RawMessage, the ',string' option and custom marshalers are outside the statement's list of kinds"},
 	},
+	"C17": {
+		Quick:    []stage{rapidStage(2_500)},
+		Thorough: []stage{rapidStage(120_000)},
+		Rule:     "cases are Swagger 2.0 documents of the convertible fragment built by a dedicated generator: primitive and array non-body parameters with every constraint field, one body or n form parameters (incl. file), shared parameters / responses / definitions used through references, nested and allOf schemas, x-nullable, discriminator, additionalProperties (bool, schema, reference), host / basePath / schemes, consumes / produces, basic / apiKey / the four OAuth2 flows, root and operation security. Checked: ToV3 succeeds and the result validates; the abstract API model (paths x methods x operationId; parameters with requiredness and constraint tuple; body or form fields; responses with description, headers, schema; definitions; servers; security schemes and requirements), extracted independently from the raw v2 JSON and from the marshalled v3 JSON with shared components dereferenced one level, is equal; FromV3(ToV3(doc)) has the same model again and only Swagger 2 reference prefixes. non-trivial = (a shared component used through a reference and >= 3 constraint fields) or form parameters or OAuth2. distinct = FNV-64a of the canonical case JSON.",
+		Assume:   []string{"collectionFormat, descriptions of parameters and x- bookkeeping extensions of the converter are not part of the model", "for media types the first content entry (sorted) carries the schema of a body or response"},
+	},
 }
